@@ -517,8 +517,25 @@ struct Range {
 }
 
 impl Range {
-    fn from_limits(min: &Option<RecordValue>, max: &Option<RecordValue>) -> Result<Option<Self>> {
-        if let (Some(RecordValue::Double(min)), Some(RecordValue::Double(max))) = (&min, &max) {
+    fn from_limits(
+        min: &Option<RecordValue>,
+        max: &Option<RecordValue>,
+        data_type: Option<&RecordDataType>,
+    ) -> Result<Option<Self>> {
+        if let (
+            Some(RecordValue::ScaledInteger(min)),
+            Some(RecordValue::ScaledInteger(max)),
+            Some(RecordDataType::ScaledInteger { scale, offset, .. }),
+        ) = (&min, &max, data_type)
+        {
+            // Scaled integer limits are raw values that use scale and offset of the attribute
+            Ok(Some(Self::from_min_max(
+                *min as f64 * *scale + *offset,
+                *max as f64 * *scale + *offset,
+            )?))
+        } else if let (Some(RecordValue::Double(min)), Some(RecordValue::Double(max))) =
+            (&min, &max)
+        {
             Ok(Some(Self::from_min_max(*min, *max)?))
         } else if let (Some(RecordValue::Single(min)), Some(RecordValue::Single(max))) =
             (&min, &max)
@@ -531,6 +548,11 @@ impl Range {
         } else {
             Ok(None)
         }
+    }
+
+    fn data_type_of(pc: &PointCloud, name: RecordName) -> Option<&RecordDataType> {
+        let record = pc.prototype.iter().find(|p| p.name == name);
+        record.map(|r| &r.data_type)
     }
 
     fn from_record_data_type(data_type: &RecordDataType) -> Result<Self> {
@@ -569,7 +591,8 @@ impl Range {
 
     fn intensity_from_pointcloud(pc: &PointCloud) -> Result<Option<Self>> {
         if let Some(limits) = &pc.intensity_limits {
-            let range = Self::from_limits(&limits.intensity_min, &limits.intensity_max)?;
+            let data_type = Self::data_type_of(pc, RecordName::Intensity);
+            let range = Self::from_limits(&limits.intensity_min, &limits.intensity_max, data_type)?;
             if range.is_some() {
                 return Ok(range);
             }
@@ -593,7 +616,8 @@ impl Range {
             red_min, red_max, ..
         }) = &pc.color_limits
         {
-            let range = Self::from_limits(red_min, red_max)?;
+            let data_type = Self::data_type_of(pc, RecordName::ColorRed);
+            let range = Self::from_limits(red_min, red_max, data_type)?;
             if range.is_some() {
                 return Ok(range);
             }
@@ -615,7 +639,8 @@ impl Range {
             ..
         }) = &pc.color_limits
         {
-            let range = Self::from_limits(green_min, green_max)?;
+            let data_type = Self::data_type_of(pc, RecordName::ColorGreen);
+            let range = Self::from_limits(green_min, green_max, data_type)?;
             if range.is_some() {
                 return Ok(range);
             }
@@ -639,7 +664,8 @@ impl Range {
             blue_min, blue_max, ..
         }) = &pc.color_limits
         {
-            let range = Self::from_limits(blue_min, blue_max)?;
+            let data_type = Self::data_type_of(pc, RecordName::ColorBlue);
+            let range = Self::from_limits(blue_min, blue_max, data_type)?;
             if range.is_some() {
                 return Ok(range);
             }
